@@ -18,7 +18,9 @@ import (
 
 var nestKinds = []string{"do", "while", "repeat", "numfor", "genfor", "if", "else"}
 
-func nestIsLoop(k string) bool { return k == "while" || k == "repeat" || k == "numfor" || k == "genfor" }
+func nestIsLoop(k string) bool {
+	return k == "while" || k == "repeat" || k == "numfor" || k == "genfor"
+}
 
 func genNest(thorough bool) Gen {
 	depth := 2
